@@ -311,3 +311,63 @@ func H_Reference() {
 		vrt.Reach("accepted")
 	}
 }
+
+var vHexTemplates = []string{
+	"@lexer\nA = '\\x##'\nB = 'b'\n@parser\n@start s = A B\n",
+	"@lexer\nA = '\\u####'\nB = 'b'\n@parser\n@start s = A B\n",
+	"@lexer\nA = '\\U##0000##'\nB = 'b'\n@parser\n@start s = A B\n",
+	"@lexer\nA = [a\\U##10FF##]+\nB = '!'\n@parser\n@start s = A B\n",
+	"@lexer\nA = [\\x#0-\\u00##]\nB = '!'\n@parser\n@start s = A B\n",
+}
+
+// H_HexHoles (C12): escapes whose hex digits are arbitrary hexadecimal digits.
+func H_HexHoles() {
+	tpl := vrt.Param("tpl", 0)
+	text := vHexTemplates[tpl]
+	data := vFill(text, "x")
+	for i := range data {
+		if text[i] == '#' {
+			d := data[i]
+			vrt.Assume(vrt.Or(vrt.And(d >= '0', d <= '9'), vrt.Or(vrt.And(d >= 'a', d <= 'f'), vrt.And(d >= 'A', d <= 'F'))))
+		}
+	}
+	vFrontEnd(data)
+}
+
+// H_AliasAmbiguity (C17): a parser term refers to a token by its literal 'x'.
+// With one token spelled 'x' it is accepted; as soon as two or three tokens
+// (in different modes) are spelled 'x' the reference is ambiguous and must be
+// rejected at the reference. The hole is the literal of the last token.
+func H_AliasAmbiguity() {
+	others := vrt.Param("others", 0) // further tokens already spelled 'x'
+	h := vrt.Byte("lit")
+	vrt.Assume(vAlnum(h))
+	text := "@lexer\nTA = 'q'\nTB = '" + string([]byte{h}) + "'\n"
+	if others >= 1 {
+		text += "@mode MA {\nTC = 'x' @pop_mode\n}\n"
+	}
+	if others >= 2 {
+		text += "@mode MB {\nTD = 'x' @pop_mode\n}\n"
+	}
+	lines := 1
+	for i := 0; i < len(text); i++ {
+		if text[i] == '\n' {
+			lines++
+		}
+	}
+	text += "@parser\n@start st = TA 'x'\n"
+	ok, diag := vRun([]byte(text))
+	count := others
+	unique := false
+	if h == 'x' {
+		count++
+	}
+	unique = count == 1
+	vrt.Assert(vrt.Iff(ok, unique), "accepted-iff-literal-names-exactly-one-token")
+	if !ok {
+		vrt.Reach("rejected")
+		vrt.Assert(vMentionsLine(diag, 0, lines+1), "diagnostic-at-the-reference")
+	} else {
+		vrt.Reach("accepted")
+	}
+}
